@@ -177,7 +177,25 @@ func copiedInto(p *Prog, r *Report, rule, name string, fn *ssa.Function, s *Sym,
 			}
 		}
 	}
-	r.Check(found, rule, key, p.InstrPos(lp), "field = make(len(L)); copy(field, L)", "no `field = make(len(L)); copy(field, L)` for ."+fld+" with L the bytes just read: the decoded value is not what was on the wire")
+	// or: the field is assigned a value whose content is L (append onto an
+	// empty buffer, bytes.Clone, a helper returning a copy)
+	for _, b := range fn.Blocks {
+		for _, in := range b.Instrs {
+			st, ok := in.(*ssa.Store)
+			if !ok {
+				continue
+			}
+			fa, ok := st.Addr.(*ssa.FieldAddr)
+			if !ok || fieldName(fa.X.Type(), fa.Field) != fld {
+				continue
+			}
+			switch s.Of(st.Val).String() {
+			case out, "make(len(" + out + "), copy(" + out + "))", "call<bytes.Clone>(" + out + ")", "call<slices.Clone>(" + out + ")", "conv<[]byte>(" + out + ")":
+				found = true
+			}
+		}
+	}
+	r.Check(found, rule, key, p.InstrPos(lp), "field = copy of L", "no assignment of a copy of L (the bytes just read) to ."+fld+" was found: the decoded value is not what was on the wire")
 }
 
 func c04(p *Prog, r *Report) {
@@ -336,10 +354,14 @@ func c04Type5Request(p *Prog, r *Report, R1 string) {
 			for _, site := range sitesIn(fn, func(nm string) bool { return nm == "builtin.copy" }) {
 				cc := site.Common()
 				src := s.Of(cc.Args[1])
-				if src.Op != "slice" || src.Args[0].String() != list || src.Args[2].String() != "const:nil" {
+				if src.Op != "slice" || src.Args[0].String() != list {
 					continue
 				}
 				lo := src.Args[1].String()
+				// open-ended (copy stops at the 32-byte destination) or exactly [lo : lo+32]
+				if hi := src.Args[2].String(); hi != "const:nil" && hi != "bin<+>(const:32, "+lo+")" && hi != "bin<+>("+lo+", const:32)" {
+					continue
+				}
 				ld, ok := cc.Args[0].(*ssa.UnOp)
 				if !ok {
 					continue
@@ -472,7 +494,15 @@ func c04Challenge(p *Prog, r *Report, R1 string) {
 				found = true
 			}
 		}
-		r.Check(found, R1, name+": decoded .RedemptionNonce is a copy of the bytes read", p.Pos(rp.Ret.Pos()), "make(len(L)); copy", "RedemptionNonce is not assigned a copy of the length-prefixed bytes read")
+		if st.Op == "struct" {
+			if v := structField(st, "RedemptionNonce"); v != nil {
+				switch v.String() {
+				case out(2), "make(len(" + out(2) + "), copy(" + out(2) + "))", "call<bytes.Clone>(" + out(2) + ")", "conv<[]byte>(" + out(2) + ")":
+					found = true
+				}
+			}
+		}
+		r.Check(found, R1, name+": decoded .RedemptionNonce is a copy of the bytes read", p.Pos(rp.Ret.Pos()), "copy of L", "RedemptionNonce is not assigned a copy of the length-prefixed bytes read")
 	}
 }
 
@@ -672,6 +702,59 @@ func c04BatchRequest(p *Prog, r *Report, R4 string) {
 						}
 					}
 				}
+			}
+		}
+	} else if ex, ok := recv.(*ssa.Extract); ok {
+		// the decoder object comes from an in-module selector helper: on each of
+		// its accepting returns it is a fresh decoder object chosen under
+		// tag == constant, the tag being the value passed by the walker
+		c, isCall := ex.Tuple.(*ssa.Call)
+		var f *ssa.Function
+		if isCall {
+			f = c.Call.StaticCallee()
+		}
+		if f == nil || !InModule(f) || f.Blocks == nil {
+			probs = append(probs, "element decoder is not selected per tag")
+		} else {
+			ch := s.child(f)
+			tagParam := ""
+			for i, prm := range f.Params {
+				if i < len(c.Call.Args) {
+					ch.params[prm] = s.Of(c.Call.Args[i])
+					if strings.Contains(ch.params[prm].String(), "bigEndian).Uint16>") {
+						tagParam = ch.params[prm].String()
+					}
+				}
+			}
+			for _, rp := range ch.ff.RetPoints(verdictIndex(f)) {
+				if rp.Outcome == Fails {
+					continue
+				}
+				mi, ok := rp.Vals[ex.Index].(*ssa.MakeInterface)
+				if !ok {
+					probs = append(probs, "the selector returns something that is not a fresh decoder object")
+					continue
+				}
+				tn := typeShort(deref(mi.X.Type()))
+				found := false
+				for _, a := range rp.Facts {
+					if a.Kind == Truth && a.Pol {
+						if bo, ok := a.V.(*ssa.BinOp); ok && bo.Op == token.EQL {
+							if cst, ok := bo.Y.(*ssa.Const); ok && cst.Value != nil && tagParam != "" && ch.Of(bo.X).String() == tagParam {
+								tagOf[cst.Value.ExactString()] = tn
+								found = true
+								break
+							}
+						}
+					}
+				}
+				if !found {
+					probs = append(probs, "decoder "+tn+" is selected without comparing the element's tag with a constant")
+				}
+			}
+			// the walker uses the object only when the selector accepted
+			if !s.factsHaveCallSuccess(u.Block(), c) {
+				probs = append(probs, "the element is decoded without the selector having accepted the tag")
 			}
 		}
 	} else {
